@@ -18,7 +18,10 @@ PROPERTY = "C02"
 RULE = ("structural heads (prefix|none) x opcode x second byte (complete in thorough; quick: 1/8 stratified sample, "
         "every (pre, opcode) pair covered) x 3 tails each (address hash, don't-care pattern bytes from "
         "{00,0F,10,7F,80,F0,FF}, all-ones) at boundary/random addresses. Non-trivial = accepted instruction with "
-        ">= 1 operand byte; distinct = (pre, opcode, b2, tail pattern).")
+        ">= 1 operand byte; distinct = (pre, opcode, b2, tail pattern). Plus streamed decodes (every instruction yielded by "
+        "fusion(iter_decode) re-encodes to the bytes consumed, length() == encoded length; non-trivial = an instruction "
+        "following a prefixed one) and harness-scheduled pre-emption (round trip / guard verdict unchanged when another "
+        "decode runs at a generated line of the first).")
 
 PATTERN = (0x00, 0x0F, 0x10, 0x7F, 0x80, 0xF0, 0xFF)
 ADDRS = (0x0, 0x0FFFE, 0x1FFFD, 0xFFFFB, 0x1000)
@@ -162,9 +165,46 @@ def _shard(task: Tuple[int, int, int, str]) -> Report:
     return rep
 
 
+def _sched_task(t: Tuple[str, str, int, int]) -> Report:
+    """stream / preempt sub-checks shared with C01 (c01_sched.py), with C02's oracles."""
+    from . import c01_sched as S
+    from .c01 import _preload
+
+    prop, kind, seed, n = t
+    _preload()
+    rep = Report()
+    pool = [b for _p, b in G.sample_valid_encodings(mix32(seed, 0x51), 1500)[0]]
+    for i in range(n):
+        cs = mix32(seed, 0x52, i)
+        if kind == "stream":
+            buf, addr, _n = S.gen_stream(cs, pool)
+            vs, n_ins, after_pre = S.stream_violations(prop, buf, addr)
+            for v in vs:
+                rep.violate(v)
+            rep.case(f"stream:{buf.hex()}:{addr}" if after_pre >= 1 else None, ["kind:stream"],
+                     {"stream": buf.hex(), "addr": f"{addr:#x}", "instructions": n_ins} if i % 400 == 1 else None)
+        else:
+            h = mix32(cs, 1)
+            a = [("text", "rt", "il")[h % 3], (pool[(h >> 4) % len(pool)] + bytes(4)).hex(), ADDRS[(h >> 20) % len(ADDRS)]]
+            h2 = mix32(cs, 2)
+            b = [("text", "info", "il", "rt", "emu")[h2 % 5], (pool[(h2 >> 4) % len(pool)] + bytes((h2 >> 24) % 3)).hex(),
+                 ADDRS[(h2 >> 20) % len(ADDRS)]]
+            kfrac = mix32(cs, 3) % 10000
+            vs, inf = S.preempt_violations(prop, a, b, kfrac)
+            for v in vs:
+                rep.violate(v)
+            rep.case(f"preempt:{a}:{b}:{kfrac}" if inf.get("lines", 0) > 0 and a[1] != b[1] else None, ["kind:preempt"],
+                     {"a": a, "b": b, "line": inf.get("k"), "lines": inf.get("lines")} if i % 300 == 1 else None)
+    return rep
+
+
 def run(ctx: Ctx) -> Report:
     nshards = 64
-    rep = ctx.merge_reports(ctx.pmap(_shard, [(i, nshards, ctx.seed, ctx.tier) for i in range(nshards)]))
+    reports = ctx.pmap(_shard, [(i, nshards, ctx.seed, ctx.tier) for i in range(nshards)])
+    n_st, n_pe = ctx.pick(3200, 32000), ctx.pick(1600, 12000)
+    reports += ctx.pmap(_sched_task, [(PROPERTY, k, ctx.shard_seed(400 + 10 * j + i), n // 8)
+                                      for j, (k, n) in enumerate((("stream", n_st), ("preempt", n_pe))) for i in range(8)])
+    rep = ctx.merge_reports(reports)
     rep.rule = RULE
     rep.exhaustive = ctx.tier == "thorough"
     rep.extra["structural_heads_total"] = len(G.PRES) * 65536
@@ -176,6 +216,12 @@ def run(ctx: Ctx) -> Report:
 
 
 def replay(ctx: Ctx, case: Dict[str, Any]) -> List[Violation]:
+    if case.get("kind") in ("stream", "preempt"):
+        from . import c01_sched as S
+
+        if case["kind"] == "stream":
+            return S.stream_violations(PROPERTY, bytes.fromhex(case["data"]), int(case["addr"]))[0]
+        return S.preempt_violations(PROPERTY, case["a"], case["b"], int(case["kfrac"]))[0]
     rep = Report()
     check_one(bytes.fromhex(case["data"]), int(case["addr"]), rep, "replay")
     return rep.violations
